@@ -417,6 +417,61 @@ Fixpoint cnode_eqb (a b : cnode) {struct a} : bool :=
   | _, _ => false
   end.
 
+(* ---------- predicates used as hypotheses of the theorems (and as domain tests) ---------- *)
+
+Definition is_seq_node (n : cnode) : bool := match n with CSeq _ _ => true | _ => false end.
+
+(* no sequence is a direct element of a KEYED whitelisted list (one sorted by a field of its elements) *)
+Fixpoint keyed_ok (kind api : string) (path : string) (n : cnode) {struct n} : bool :=
+  match n with
+  | CScalar _ _ | CAlias _ _ => true
+  | CMap _ kvs =>
+      (fix go (l : list (cnode * cnode)) : bool :=
+         match l with
+         | [] => true
+         | kv :: t =>
+             keyed_ok kind api path (fst kv) &&
+             keyed_ok kind api (path ++ "." ++ cvalue (fst kv)) (snd kv) && go t
+         end) kvs
+  | CSeq _ es =>
+      match sort_field kind api path with
+      | Some f => String.eqb f "" || forallb (fun e => negb (is_seq_node e)) es
+      | None => true
+      end &&
+      (fix go (l : list cnode) : bool :=
+         match l with
+         | [] => true
+         | e :: t => keyed_ok kind api path e && go t
+         end) es
+  end.
+
+Fixpoint nodup_strs (l : list string) : bool :=
+  match l with
+  | [] => true
+  | x :: t => negb (str_in x t) && nodup_strs t
+  end.
+
+Definition key_values (kvs : list (cnode * cnode)) : list string := map (fun kv => cvalue (fst kv)) kvs.
+
+(* every mapping has pairwise distinct keys (what YAML requires of a mapping) *)
+Fixpoint wf_keys (n : cnode) : bool :=
+  match n with
+  | CScalar _ _ | CAlias _ _ => true
+  | CMap _ kvs =>
+      nodup_strs (key_values kvs) &&
+      (fix go (l : list (cnode * cnode)) : bool :=
+         match l with
+         | [] => true
+         | kv :: t => wf_keys (fst kv) && wf_keys (snd kv) && go t
+         end) kvs
+  | CSeq _ es =>
+      (fix go (l : list cnode) : bool :=
+         match l with
+         | [] => true
+         | e :: t => wf_keys e && go t
+         end) es
+  end.
+
 (* ---------- induction principle for the nested inductive ---------- *)
 Section CnodeInd.
   Variable P : cnode -> Prop.
